@@ -75,4 +75,99 @@ def Before (out : List Nat) (a b : Nat) : Prop :=
 def TopoValid (g : Dag) (firstParent : Bool) (out : List Nat) : Prop :=
   ∀ c p, c ∈ out → p ∈ out → p ∈ edges g firstParent c → Before out c p
 
+/-! ### git's sequence for `--date-order` / `--topo-order` (executable transcription)
+
+`sort_in_topological_order` (git 2.39 commit.c, used by revision.c after `limit_list`): Kahn's
+algorithm over the selected commits; in-degree = 1 + number of selected children; the commits
+nothing selected points at start the queue, in the order of the revision list (newest commit time
+first, equal times in the order the tips were given); `--date-order`: a priority queue by commit
+time whose ties are broken by insertion order; `--topo-order`: a LIFO stack (the initial content
+reversed so that it comes off in list order); a parent is queued when its in-degree drops to 1.
+With a commit-graph git runs the incremental variant of the same algorithm. The harness compares
+this transcription with the sequences the git binary prints (`gitorder` operations). -/
+
+/-- ancestors-or-self of `xs` as a table over the commits `0..n` -/
+def ancestorsTable (g : Dag) (n : Nat) (xs : List Nat) : Array Bool :=
+  let rec go : Nat → List Nat → Array Bool → Array Bool
+    | 0, _, t => t
+    | _, [], t => t
+    | fuel + 1, c :: stack, t =>
+      match t[c]? with
+      | some false => go fuel (g.parents c ++ stack) (t.setIfInBounds c true)
+      | _ => go fuel stack t
+  go (n * n + n + xs.length + 1) xs (Array.replicate n false)
+
+def tableHas (t : Array Bool) (x : Nat) : Bool :=
+  match t[x]? with
+  | some b => b
+  | none => false
+
+/-- insertion into a list kept sorted by (time descending, insertion counter ascending) -/
+def dateInsert (e : Int × Nat × Nat) : List (Int × Nat × Nat) → List (Int × Nat × Nat)
+  | [] => [e]
+  | x :: xs => if x.1 ≥ e.1 then x :: dateInsert e xs else e :: x :: xs
+
+/-- stable sort of commits by commit time, newest first -/
+def sortNewestFirst (g : Dag) (l : List Nat) : List Nat :=
+  l.foldl (fun acc c =>
+    let rec ins : List Nat → List Nat
+      | [] => [c]
+      | x :: xs => if g.time x ≥ g.time c then x :: ins xs else c :: x :: xs
+    ins acc) []
+
+def dedup : List Nat → List Nat → List Nat
+  | [], acc => acc.reverse
+  | x :: xs, acc => if acc.contains x then dedup xs acc else dedup xs (x :: acc)
+
+structure KahnState where
+  indeg : Array Nat
+  dateQ : List (Int × Nat × Nat)
+  ctr : Nat
+  stack : List Nat
+  out : List Nat
+
+def gitTopoOrder (g : Dag) (n : Nat) (tips hidden : List Nat) (dateOrder : Bool) : List Nat :=
+  let hid := ancestorsTable g n hidden
+  let rch := ancestorsTable g n tips
+  let sel : Nat → Bool := fun x => tableHas rch x && !tableHas hid x
+  -- in-degrees: 1 + number of selected children
+  let indeg0 : Array Nat := (List.range n).foldl (fun (a : Array Nat) c =>
+      if sel c then (g.parents c).foldl (fun (a : Array Nat) p =>
+        match a[p]? with
+        | some d => a.setIfInBounds p (d + 1)
+        | none => a) a
+      else a) (Array.replicate n 1)
+  let heads := sortNewestFirst g ((dedup tips []).filter fun t => sel t && (indeg0[t]? == some 1))
+  let push (s : KahnState) (c : Nat) : KahnState :=
+    if dateOrder then { s with dateQ := dateInsert (g.time c, s.ctr, c) s.dateQ, ctr := s.ctr + 1 }
+    else { s with stack := c :: s.stack }
+  let s0 : KahnState :=
+    if dateOrder then heads.foldl push { indeg := indeg0, dateQ := [], ctr := 0, stack := [], out := [] }
+    else { indeg := indeg0, dateQ := [], ctr := 0, stack := heads, out := [] }
+  let rec loop : Nat → KahnState → List Nat
+    | 0, s => s.out
+    | fuel + 1, s =>
+      let next : Option (Nat × KahnState) :=
+        if dateOrder then
+          match s.dateQ with
+          | [] => none
+          | e :: rest => some (e.2.2, { s with dateQ := rest })
+        else
+          match s.stack with
+          | [] => none
+          | c :: rest => some (c, { s with stack := rest })
+      match next with
+      | none => s.out
+      | some (c, s1) =>
+        let s2 := (g.parents c).foldl (fun (s : KahnState) p =>
+          if sel p then
+            match s.indeg[p]? with
+            | some d =>
+              let s' := { s with indeg := s.indeg.setIfInBounds p (d - 1) }
+              if d - 1 = 1 then push s' p else s'
+            | none => s
+          else s) { s1 with out := s1.out ++ [c] }
+        loop fuel s2
+  loop (n + 1) s0
+
 end GixModel.Spec.C47
